@@ -22,6 +22,7 @@ A *trace* is a list with one dict per day holding what the model must reproduce:
 from __future__ import annotations
 
 import contextlib
+import copy
 import io
 from datetime import date, timedelta
 
@@ -47,6 +48,33 @@ from utils.queue import PriorityQueueWithFIFO  # noqa: E402
 MP = pdc.Method_Params
 METHOD = "M"
 
+# names used for the current case: the model works with site indices 1..n and one method; the real classes
+# get whatever names the case asks for (underscores, digits, prefixes of each other, marker-like names)
+_CUR = {"method": METHOD, "to_idx": {}, "to_name": {}}
+
+
+def set_names(case):
+    _CUR["method"] = case.get("method_name") or METHOD
+    names = case.get("site_names") or {}
+    _CUR["to_name"] = {int(k): str(v) for k, v in names.items()}
+    _CUR["to_idx"] = {str(v): int(k) for k, v in names.items()}
+
+
+def M():
+    return _CUR["method"]
+
+
+def IDX(x):
+    """real site id -> index used by the model / the traces"""
+    x = str(x)
+    return _CUR["to_idx"][x] if x in _CUR["to_idx"] else int(x)
+
+
+def NAME(i):
+    """index -> real site id"""
+    return _CUR["to_name"].get(int(i), str(i))
+
+
 
 # ------------------------------------------------------------------------------------------------
 # stubs for the collaborators
@@ -54,8 +82,9 @@ METHOD = "M"
 class StubSite:
     """what Method / ComponentLevelMethod / the schedules use of virtual_world.sites.Site"""
 
-    def __init__(self, sid, freq, deploy, months, years, survey_time, cost=0.0, method=METHOD, widx=0):
-        self._site_ID = str(sid)
+    def __init__(self, sid, freq, deploy, months, years, survey_time, cost=0.0, method=None, widx=0):
+        method = method or M()
+        self._site_ID = NAME(sid)
         self._survey_frequencies = {method: freq}
         self._deploy_method = {method: deploy}
         self._deployment_months = {method: list(months)}
@@ -110,9 +139,13 @@ class StubWeather:
         self.temps = np.full((n, max(nsites, 1), 1), 10.0)
         self.winds = np.full((n, max(nsites, 1), 1), 1.0)
         self.precip = np.full((n, max(nsites, 1), 1), 0.0)
+        self.bad = set()
 
     def set_bad(self, d: date, widx=None):
         t = d.timetuple().tm_yday - 1
+        doy0 = (d - date(d.year, 1, 1)).days  # kept separately for the oracle (not read from the arrays)
+        for w in (range(self.winds.shape[1]) if widx is None else [widx]):
+            self.bad.add((doy0, w))
         if widx is None:
             self.winds[t * 24:(t + 1) * 24, :, 0] = 99.0
         else:
@@ -139,7 +172,7 @@ def make_method(cls_name, deployment_type, follow_up, crews, travel, hours, site
     props = method_properties(deployment_type, follow_up, crews, travel, hours)
     klass = {"site": Method, "component": ComponentLevelMethod}[cls_name]
     with contextlib.redirect_stdout(io.StringIO()):  # crew-shortage warnings are printed
-        return klass(METHOD, props, consider_weather, sites, None)
+        return klass(M(), props, consider_weather, sites, None)
 
 
 def D(t):
@@ -158,14 +191,17 @@ def queue_content(schedule):
             cls, rate = prio
         else:
             cls, rate = prio, 0
-        out.append([int(cls), int(rate) if float(rate).is_integer() else rate, int(plan.get_site().get_id())])
+        out.append([int(cls), int(rate) if float(rate).is_integer() else rate, IDX(plan.get_site().get_id())])
     return out
 
 
 def counter_value(q):
     """number of puts this queue object has seen (next value of its itertools.count, read from the repr)"""
     r = repr(q.counter)
-    return int(r[r.index("(") + 1:r.index(")")])
+    try:
+        return int(r[r.index("(") + 1:r.index(")")])
+    except ValueError:  # a counter of an unexpected shape: the number of puts is then not observable
+        return 0
 
 
 def queue_pop_order_check(schedule):
@@ -191,7 +227,7 @@ def planner_state(pl, years):
     else:
         done = [[y, n] for y, n in sorted(pl._surveys_this_year.items())]
         queued = None
-    return {"site": int(pl.get_site().get_id()), "queued": queued, "done": done,
+    return {"site": IDX(pl.get_site().get_id()), "queued": queued, "done": done,
             "report": report_state(pl._active_survey_report)}
 
 
@@ -199,6 +235,7 @@ def planner_state(pl, years):
 # routine / stationary schedules
 # ------------------------------------------------------------------------------------------------
 def build_routine(case):
+    set_names(case)
     sites = [StubSite(s["id"], s["freq"], s["deploy"], s["months"], s["years"], s["S"], widx=i)
              for i, s in enumerate(case["sites"])]
     start, end = D(case["start"]), D(case["end"])
@@ -212,11 +249,11 @@ def build_routine(case):
     if stationary:
         # scheduling_utils.create_schedule: est_meth_daily_surveys = len(sites)
         case["_cap_used"] = len(sites)
-        sched = StationarySchedule(METHOD, sites, start, end, len(sites), method.get_crew_count())
+        sched = StationarySchedule(M(), sites, start, end, len(sites), method.get_crew_count())
     else:
         cap = case["cap"] if case.get("cap") is not None else method.estimate_average_daily_surveys()
         case["_cap_used"] = cap
-        sched = MobileSchedule(METHOD, sites, start, end, cap, method.get_crew_count())
+        sched = MobileSchedule(M(), sites, start, end, cap, method.get_crew_count())
     weather = StubWeather(len(sites))
     return sites, method, sched, weather
 
@@ -228,10 +265,40 @@ def documented_crew_estimate(case):
 
     n = len(case["sites"])
     t = case["T"]
+    if isinstance(t, list):
+        t = sum(t) / len(t)
     avg_s = sum(s["S"] + t for s in case["sites"]) / n
     avg_req = sum((s.get("freq") or 1) for s in case["sites"]) / n
     per_day = (case["hours"] * 60 - t) / avg_s
     return math.ceil(n / (per_day * (365 / avg_req)))
+
+
+def shared_input_check(case):
+    """several real schedules (and methods) built from ONE list of site objects and ONE properties source:
+    (a) the planners they hold must be equal, (b) the shared input must be deep-equal before and after.
+    Returns (static of first, static of second, list of input attributes that changed)"""
+    set_names(case)
+    sites = [StubSite(s["id"], s.get("freq"), s.get("deploy", True), s.get("months", list(range(1, 13))),
+                      s.get("years", []), s["S"], widx=i) for i, s in enumerate(case["sites"])]
+    attrs = ("_survey_frequencies", "_deploy_method", "_deployment_months", "_deployment_years", "_survey_time",
+             "_survey_costs")
+    snap = [copy.deepcopy({a: getattr(st, a) for a in attrs}) for st in sites]
+    start, end = D(case["start"]), D(case["end"])
+    stationary = case["kind"] == "stationary"
+    dep = pdc.Deployment_Types.STATIONARY if stationary else pdc.Deployment_Types.MOBILE
+    statics = []
+    for _ in range(2):
+        method = make_method(case.get("method_class", "site"), dep, case["kind"] == "followup", case["crews"],
+                             case["T"], case["hours"], sites)
+        klass = StationarySchedule if stationary else (FollowUpMobileSchedule if case["kind"] == "followup" else MobileSchedule)
+        sched = klass(M(), sites, start, end, case.get("cap") or 1, method.get_crew_count())
+        statics.append(planner_static(sched))
+    changed = []
+    for st, before in zip(sites, snap):
+        for a in attrs:
+            if getattr(st, a) != before[a]:
+                changed.append([st.get_id(), a, before[a], getattr(st, a)])
+    return statics[0], statics[1], changed
 
 
 def plan_dates(sched):
@@ -248,13 +315,13 @@ def planner_static(sched):
     for pl in sched._survey_plans:
         sp = pl.get_survey_plan()
         out.append({
-            "site": int(pl.get_site().get_id()),
+            "site": IDX(pl.get_site().get_id()),
             "rs": int(pl._site_annual_rs),
             "months": list(pl._deployment_months),
             "dep_years": list(pl._deployment_years),
             "sim_years": list(pl._sim_years),
             "plan": [] if sp is None else [[d.month, d.day] for d in sp],
-            "S": int(pl.get_site().get_method_survey_time(METHOD)),
+            "S": int(pl.get_site().get_method_survey_time(M())),
         })
     return out
 
@@ -287,17 +354,17 @@ def run_routine(case, forced=None):
         cur = start + timedelta(days=k)
         rec = {"date": [cur.year, cur.month, cur.day], "crash": None}
         # the weather input as the real check_weather will index it (day of year, hour 8, the site's cell)
-        t_ = cur.timetuple().tm_yday - 1
-        rec["workable"] = [1 if weather.winds[t_ * 24 + Method.HOUR, s_._widx, 0] <= 10 else 0 for s_ in sites]
+        doy0 = (cur - date(cur.year, 1, 1)).days
+        rec["workable"] = [0 if (doy0, s_._widx) in weather.bad else 1 for s_ in sites]
         try:
             qflag = [pl._queued for pl in sched._survey_plans]
             qlen = sched._survey_queue.qsize()
             puts0 = counter_value(sched._survey_queue)
             wp = sched.get_workplan(cur)
             rec["n_puts"] = counter_value(sched._survey_queue) - puts0
-            rec["issued"] = [int(pl.get_site().get_id()) for pl, was in zip(sched._survey_plans, qflag)
+            rec["issued"] = [IDX(pl.get_site().get_id()) for pl, was in zip(sched._survey_plans, qflag)
                              if pl._queued and not was]
-            rec["plan"] = [int(x) for x in wp.site_survey_planners.keys()]
+            rec["plan"] = [IDX(x) for x in wp.site_survey_planners.keys()]
             # number of entries popped = queue before + issued - queue after
             rec["n_taken"] = qlen + rec["n_puts"] - sched._survey_queue.qsize()
             rec["queue_after_take"] = queue_content(sched)
@@ -307,12 +374,12 @@ def run_routine(case, forced=None):
             else:
                 method.deploy_crews(wp, weather, None)
             reports, planners = wp.get_reports()
-            rec["reports"] = sorted(int(x) for x in reports.keys())
+            rec["reports"] = sorted(IDX(x) for x in reports.keys())
             outs = []
             for sid, pl in planners.items():
                 rep = reports.get(sid)
                 if rep is None:
-                    outs.append([int(sid), "?", 0, 0, 0])
+                    outs.append([IDX(sid), "?", 0, 0, 0])
                     continue
                 b = before[sid]
                 prev = 0 if b is None else b[1]
@@ -327,13 +394,13 @@ def run_routine(case, forced=None):
                 else:
                     st = "U"
                 today = int(rep.time_surveyed) - prev
-                outs.append([int(sid), st, today, int(rep.time_surveyed),
+                outs.append([IDX(sid), st, today, int(rep.time_surveyed),
                              int(rep.time_surveyed_current_day)])
             rec["outcomes"] = outs
             returned = sched.update(wp, cur, False)
             # the survey reports the schedule hands back to the program: (site, completion date)
             rec["completed_reports"] = [
-                [int(r.site_id), None if r.survey_completion_date is None else
+                [IDX(r.site_id), None if r.survey_completion_date is None else
                  [r.survey_completion_date.year, r.survey_completion_date.month, r.survey_completion_date.day]]
                 for r in returned]
         except KeyError:
@@ -356,15 +423,15 @@ def _forced_deploy(wp, outcome, cur, method):
     one report per planned request (created by the planner's own get_current_survey_report)."""
     for sid, pl in wp.site_survey_planners.items():
         rep = pl.get_current_survey_report()
-        st = outcome.get(int(sid), "C")
+        st = outcome.get(IDX(sid), "C")
         if st == "C":
             if not rep.survey_in_progress:
                 rep.survey_start_date = cur
             rep.survey_completion_date = cur
             rep.survey_complete = True
             rep.survey_in_progress = False
-            rep.time_surveyed_current_day = pl.get_site().get_method_survey_time(METHOD) - rep.time_surveyed
-            rep.time_surveyed = pl.get_site().get_method_survey_time(METHOD)
+            rep.time_surveyed_current_day = pl.get_site().get_method_survey_time(M()) - rep.time_surveyed
+            rep.time_surveyed = pl.get_site().get_method_survey_time(M())
         elif st == "P":
             if not rep.survey_in_progress:
                 rep.survey_start_date = cur
@@ -388,6 +455,7 @@ def run_followup(case, ops_fn=None):
                                       ('recent' filter), then add_previous_queued (cls 2) /
                                       add_to_survey_queue (cls 3) / dropped (cls 0)
     """
+    set_names(case)
     sites = [StubSite(s["id"], None, True, list(range(1, 13)), [], s["S"], widx=i)
              for i, s in enumerate(case["sites"])]
     by_id = {s.get_id(): s for s in sites}
@@ -396,7 +464,7 @@ def run_followup(case, ops_fn=None):
                          case["crews"], case["T"], case["hours"], sites)
     cap = case["cap"] if case.get("cap") is not None else method.estimate_average_daily_surveys()
     case["_cap_used"] = cap
-    sched = FollowUpMobileSchedule(METHOD, sites, start, end, cap, method.get_crew_count())
+    sched = FollowUpMobileSchedule(M(), sites, start, end, cap, method.get_crew_count())
     flags = sched.get_site_id_queue_list()
     weather = StubWeather(len(sites))
     wm = case.get("weather") or []
@@ -404,39 +472,39 @@ def run_followup(case, ops_fn=None):
         if not w:
             weather.set_bad(start + timedelta(days=k))
     trace = []
-    totals = {int(s_.get_id()): 0 for s_ in sites}
+    totals = {IDX(s_.get_id()): 0 for s_ in sites}
     for k in range(case["ndays"]):
         cur = start + timedelta(days=k)
         rec = {"date": [cur.year, cur.month, cur.day], "crash": None, "ops": []}
         if ops_fn is not None:
             while len(case["ops"]) <= k:
                 case["ops"].append([])
-            case["ops"][k] = ops_fn(k, sorted(int(s_) for s_, v in flags.items() if v))
+            case["ops"][k] = ops_fn(k, sorted(IDX(s_) for s_, v in flags.items() if v))
         for op in (case["ops"][k] if k < len(case["ops"]) else []):
             if op[0] == "add":
                 _, cls, sid, rate = op
-                rec_ = DetectionRecord(str(sid), by_id[str(sid)], float(rate))
+                rec_ = DetectionRecord(NAME(sid), by_id[NAME(sid)], float(rate))
                 pl = FollowUpSurveyPlanner(rec_, cur)
                 if cls == 3:
                     sched.add_to_survey_queue(pl)
                 else:
                     sched.add_previous_queued_to_survey_queue(pl)
-                flags[str(sid)] = True
+                flags[NAME(sid)] = True
                 rec["ops"].append(["add", cls, sid, rate, queue_content(sched)])
             elif op[0] == "redetect":
                 _, sid, rate, cls = op
-                pl = sched.get_plan_from_queue(str(sid))
+                pl = sched.get_plan_from_queue(NAME(sid))
                 if pl is None:
                     rec["ops"].append(["redetect-miss", sid, rate, cls, queue_content(sched)])
                     continue
-                pl.update_with_latest_survey(DetectionRecord(str(sid), by_id[str(sid)], float(rate)),
-                                             "recent", METHOD, cur)
+                pl.update_with_latest_survey(DetectionRecord(NAME(sid), by_id[NAME(sid)], float(rate)),
+                                             "recent", M(), cur)
                 if cls == 2:
                     sched.add_previous_queued_to_survey_queue(pl)
                 elif cls == 3:
                     sched.add_to_survey_queue(pl)
                 else:
-                    flags[str(sid)] = False
+                    flags[NAME(sid)] = False
                 rec["ops"].append(["redetect", sid, rate, cls, queue_content(sched)])
         rec["queue_before"] = queue_content(sched)
         try:
@@ -445,12 +513,12 @@ def run_followup(case, ops_fn=None):
             rec["crash"] = "key_error" if isinstance(e, KeyError) else type(e).__name__
             trace.append(rec)
             break
-        rec["plan"] = [int(x) for x in wp.site_survey_planners.keys()]
+        rec["plan"] = [IDX(x) for x in wp.site_survey_planners.keys()]
         rec["queue_after_take"] = queue_content(sched)
         rec["n_taken"] = len(rec["queue_before"]) - len(rec["queue_after_take"])
         rec["issued"] = []
         before = {sid: report_state(pl._active_survey_report) for sid, pl in wp.site_survey_planners.items()}
-        prior_counts = {int(sid): sum(pl._surveys_this_year.values()) for sid, pl in wp.site_survey_planners.items()}
+        prior_counts = {IDX(sid): sum(pl._surveys_this_year.values()) for sid, pl in wp.site_survey_planners.items()}
         try:
             method.deploy_crews(wp, weather, None)
         except Exception as e:
@@ -458,12 +526,12 @@ def run_followup(case, ops_fn=None):
             trace.append(rec)
             break
         reports, planners = wp.get_reports()
-        rec["reports"] = sorted(int(x) for x in reports.keys())
+        rec["reports"] = sorted(IDX(x) for x in reports.keys())
         outs = []
         for sid, pl in planners.items():
             rep = reports.get(sid)
             if rep is None:
-                outs.append([int(sid), "?", 0, 0, 0])
+                outs.append([IDX(sid), "?", 0, 0, 0])
                 continue
             b = before[sid]
             prev = 0 if b is None else b[1]
@@ -473,7 +541,7 @@ def run_followup(case, ops_fn=None):
                 st = "P"
             else:
                 st = "U"
-            outs.append([int(sid), st, int(rep.time_surveyed) - prev, int(rep.time_surveyed),
+            outs.append([IDX(sid), st, int(rep.time_surveyed) - prev, int(rep.time_surveyed),
                          int(rep.time_surveyed_current_day)])
         rec["outcomes"] = outs
         try:
@@ -483,21 +551,21 @@ def run_followup(case, ops_fn=None):
             trace.append(rec)
             break
         # real completion counters of the planner objects (SurveyPlanner._surveys_this_year)
-        rec["real_done"] = sorted([int(sid), sorted([y, n] for y, n in pl._surveys_this_year.items())]
+        rec["real_done"] = sorted([IDX(sid), sorted([y, n] for y, n in pl._surveys_this_year.items())]
                                   for sid, pl in planners.items())
         rec["queue"] = queue_content(sched)
         rec["heap_ok"] = queue_pop_order_check(sched)
-        rec["flags"] = sorted(int(s) for s, v in flags.items() if v)
+        rec["flags"] = sorted(IDX(s) for s, v in flags.items() if v)
         # outstanding planners' reports
         rec["planners"] = sorted(
-            [[int(pl.get_site().get_id()), report_state(pl._active_survey_report)]
+            [[IDX(pl.get_site().get_id()), report_state(pl._active_survey_report)]
              for _p, _c, pl in sched._survey_queue.queue], key=lambda x: x[0])
-        rec["done"] = sorted([int(sid), sum(planners[str(sid)]._surveys_this_year.values())]
+        rec["done"] = sorted([int(sid), sum(planners[NAME(sid)]._surveys_this_year.values())]
                              for sid, st, *_ in outs if st == "C")
         for sid, st, *_ in outs:
             # cumulative completions per site, read from the REAL counter of the planner object that was
             # planned today (a planner that completed has {year: 1}; one that did not has {})
-            totals[int(sid)] += sum(planners[str(sid)]._surveys_this_year.values()) - prior_counts.get(int(sid), 0)
+            totals[int(sid)] += sum(planners[NAME(sid)]._surveys_this_year.values()) - prior_counts.get(int(sid), 0)
         rec["totals"] = dict(totals)
         trace.append(rec)
     return trace
@@ -509,6 +577,7 @@ def run_followup(case, ops_fn=None):
 def real_plan(months, freq):
     """(month, day, year) of every plan date produced by the real `_generate_evenly_spaced_dates`
     (through a real ScheduledSurveyPlanner); raises whatever the real code raises"""
+    set_names({})
     site = StubSite(1, freq, True, months, [], 60)
     pl = ScheduledSurveyPlanner(site, freq, date(2024, 1, 1), date(2024, 12, 31), [], list(months))
     return [[d.month, d.day, d.year] for d in pl.get_survey_plan()]
